@@ -47,6 +47,12 @@ MUTATIONS = {
     "M10-first-parent-only-when-reusing-clones": ("graph", [(
         "                return list(filtered_parents[0].cloned_nodes), []",
         "                return list(filtered_parents[0].cloned_nodes)[:1], []")]),
+    "M10b-first-clone-only-when-reparsing": ("graph", [(
+        "                    nodes_to_add = old_node.cloned_nodes\n",
+        "                    nodes_to_add = old_node.cloned_nodes[:1]\n")]),
+    "M13-reused-parent-added-twice": ("graph", [(
+        "                    if node_to_add not in get_nodes:\n                        get_nodes.append(node_to_add)",
+        "                    get_nodes.append(node_to_add)\n                    get_nodes.append(node_to_add)")]),
     "M11-lazy-reuses-first-child-only": ("graph", [(
         "        if unique_new_node and len(filtered_children) == 1:",
         "        if len(filtered_children) >= 1:")]),
@@ -93,11 +99,12 @@ def run(name, seeds=(11,), n_suites=10):
 
 
 if __name__ == "__main__":
-    names = sys.argv[1:] or ["baseline"] + list(MUTATIONS)
+    names = [a for a in sys.argv[1:] if not a.startswith("-n")] or ["baseline"] + list(MUTATIONS)
+    n_suites = next((int(a[2:]) for a in sys.argv[1:] if a.startswith("-n")), 10)
     for n in names:
         if n == "baseline":
             MUTATIONS["baseline"] = ("graph", [])
-        r = run(n)
+        r = run(n, n_suites=n_suites)
         caught = [p for p, v in r.items() if v["violations"] or v["disagreements"]]
         print(f"{n}: {'CAUGHT by ' + ','.join(caught) if caught else 'MISSED'}")
         for p, v in r.items():
